@@ -64,6 +64,9 @@ pub struct Faults {
     pub rpc_down_after: Option<usize>,
     /// answer the transaction RPCs with these global indices with a bare HTTP 503 (bitcoind overloaded: "Work queue depth exceeded")
     pub rpc_http503_at: HashSet<usize>,
+    /// odd answers to the next getrawtransaction calls: Some(code) = that JSON-RPC error code, None = a result that is not
+    /// what the method returns (a bare string).  Neither says the node has the transaction.
+    pub get_odd: VecDeque<Option<i32>>,
 }
 
 #[derive(Clone)]
@@ -357,6 +360,26 @@ impl jsonrpc::client::Transport for SimTransport {
                                                     verdict: "err".into(), code: 503, tid: std::thread::current().id(), taken: false });
                 }
                 return Err(jsonrpc::Error::Transport(Box::new(jsonrpc::simple_http::Error::HttpErrorCode(503))));
+            }
+        }
+        if req.method == "getrawtransaction" {
+            let mut node = self.0.lock().unwrap();
+            if node.up && node.rpc_up {
+                if let Some(odd) = node.faults.get_odd.pop_front() {
+                    node.rpc_calls += 1;
+                    let params: Vec<serde_json::Value> = req.params.and_then(|p| serde_json::from_str(p.get()).ok()).unwrap_or_default();
+                    let txid: Txid = params.first().and_then(|v| v.as_str()).and_then(|s| s.parse().ok()).unwrap_or_else(crate::simnode::txid_zero);
+                    node.rpc_log.push(RpcLogEntry { method: "get", txid, verdict: "no".into(), code: odd.unwrap_or(0), tid: std::thread::current().id(), taken: false });
+                    return Ok(match odd {
+                        Some(code) => jsonrpc::Response {
+                            result: None,
+                            error: Some(jsonrpc::error::RpcError { code, message: "simulated error".into(), data: None }),
+                            id: req.id.clone(),
+                            jsonrpc: Some("2.0".into()),
+                        },
+                        None => jsonrpc::Response { result: Some(raw(json!("zz"))), error: None, id: req.id.clone(), jsonrpc: Some("2.0".into()) },
+                    });
+                }
             }
         }
         teos_common::verif::crashpoint("rpc:before");
